@@ -201,14 +201,14 @@ def month_len(y, m):
     return 30 if m in (4, 6, 9, 11) else 31
 def days_from_civil(y, m, d):
     y -= m <= 2
-    era = (y if y >= 0 else y - 399) // 400
+    era = y // 400                      # Python's // already floors
     yoe = y - era * 400
     doy = (153 * (m + (-3 if m > 2 else 9)) + 2) // 5 + d - 1
     doe = yoe * 365 + yoe // 4 - yoe // 100 + doy
     return era * 146097 + doe - 719468
 def civil_from_days(z):
     z += 719468
-    era = (z if z >= 0 else z - 146096) // 146097
+    era = z // 146097
     doe = z - era * 146097
     yoe = (doe - doe // 1460 + doe // 36524 - doe // 146096) // 365
     y = yoe + era * 400
